@@ -22,10 +22,15 @@
         expression" of a nested repetition is the one with an atomic group, which is what the correspondence compares
         with; on flat patterns the nested matcher accepts exactly the regular language and agrees with the flat model
         (nmatch_flat_exact, nmatch_flat_agrees), through a completeness lemma for any deterministic repetition.
-   NOT PROVED: capture priority (which parse is reported), back-references, node/primitive matchers, layout
+     T  (models/TreeMatch.v: a plain tree - an AST - as pattern, node classes / fields in order / lists element-wise /
+        primitive leaves by type and value; a pattern FIELD given as `...` is the wildcard, an Ellipsis constant a literal)
+        every tree matches the pattern built from itself; that pattern matches ONLY this tree, so a copy that differs in one
+        leaf (or anywhere) matches in neither direction - None, 0, False, '', b'', 0.0 and ... are seven different leaves;
+        the pattern with a wildcard at a path matches every tree that differs only at that path.
+   NOT PROVED: capture priority (which parse is reported), back-references, the M-pattern node matchers, layout
    independence: correspondence with `re` and the oracle (partial). *)
-From Coq Require Import List Bool Arith.
-From PF Require Import models.Match proofs.MatchProofs models.MatchNested proofs.MatchNestedProofs.
+From Coq Require Import List Bool Arith ZArith NArith.
+From PF Require Import models.Match proofs.MatchProofs models.MatchNested proofs.MatchNestedProofs models.TreeMatch proofs.TreeMatchProofs.
 Import ListNotations.
 
 Theorem C17_list_matcher_accepts_the_regular_language : forall items, well_formed items -> forall tgt,
@@ -91,3 +96,29 @@ Proof.
   split; [|repeat split; reflexivity].
   intros mn mx g sub [H|[H|[]]]; [injection H as <- <- <- <-; split; [discriminate|exact I]|discriminate].
 Qed.
+
+(* ---- a plain tree as pattern (models/TreeMatch.v) ---- *)
+Theorem C17_every_tree_matches_the_pattern_built_from_itself : forall t, tmatch (of_tree t) t = true.
+Proof. exact tmatch_refl. Qed.
+Print Assumptions C17_every_tree_matches_the_pattern_built_from_itself.
+
+Theorem C17_the_pattern_built_from_a_tree_matches_only_that_tree : forall p t, tmatch (of_tree p) t = true <-> p = t.
+Proof. exact tmatch_is_equality. Qed.
+Print Assumptions C17_the_pattern_built_from_a_tree_matches_only_that_tree.
+
+Theorem C17_a_tree_that_differs_in_one_place_does_not_match : forall t path new, put_at path new t <> t ->
+  tmatch (of_tree (put_at path new t)) t = false /\ tmatch (of_tree t) (put_at path new t) = false.
+Proof. exact differs_somewhere_no_match. Qed.
+Print Assumptions C17_a_tree_that_differs_in_one_place_does_not_match.
+
+Theorem C17_a_wildcard_accepts_whatever_stands_in_its_place : forall path t new,
+  tmatch (any_at path (of_tree t)) (put_at path new t) = true.
+Proof. exact wildcard_at_path. Qed.
+Print Assumptions C17_a_wildcard_accepts_whatever_stands_in_its_place.
+
+(* non-vacuity: None against None / 0 / False / '' / b'' / 0.0 / ... in the same slot, and a wildcard there *)
+Example C17_falsy_leaves_are_different_leaves :
+  map (fun t => tmatch (of_tree (Node 5 [Leaf VNone])) (Node 5 [t])) [Leaf VNone; Leaf (VInt 0); Leaf (VBool false); Leaf (VStr []); Leaf (VBytes []); Leaf (VNum [48%N; 46%N; 48%N]); Leaf VDots]
+  = [true; false; false; false; false; false; false]
+  /\ map (fun t => tmatch (TNode 5 [TAny]) (Node 5 [t])) [Leaf VNone; Leaf (VInt 0); Leaf VDots] = [true; true; true].
+Proof. exact falsy_leaves_differ. Qed.
